@@ -37,7 +37,6 @@ def TableOk (t : Table) : Prop := ∀ n v, t.find n = some v → Front.isRegiste
 
 structure Good (b : Bool) (st : St) : Prop where
   inv : Seg.Inv st.seg
-  sm : small st.seg = true
   gt : ∀ t ∈ st.globalTasks, TaskOk st.seg.pending t
   lt : ∀ l, st.localTasks = some l → ∀ t ∈ l, TaskOk st.seg.pending t
   gtab : TableOk st.globals
@@ -69,14 +68,14 @@ theorem TaskOk.mono {p q : List (Nat × Nat)} (h : p ⊆ q) {t : Task} (ht : Tas
   | globalCopy n l c => exact ht
 
 theorem good_init : Good false St.init :=
-  ⟨Seg.inv_init, rfl, fun _ h => (by simp [St.init] at h), fun _ h => (by simp [St.init] at h),
+  ⟨Seg.inv_init, fun _ h => (by simp [St.init] at h), fun _ h => (by simp [St.init] at h),
    fun _ _ h => (by simp [St.init, Table.find] at h), fun _ h => (by simp [St.init] at h),
    fun h => (by cases h), fun _ => ⟨rfl, rfl, fun _ h => (by simp [St.init] at h)⟩⟩
 
 /-! ## errors -/
 
 theorem good_pushIn {b : Bool} {st : St} (h : Good b st) (f : Bytes) (l c : Nat) (k : Kind) : Good b (st.pushIn f l c k) :=
-  ⟨h.inv, h.sm, h.gt, h.lt, h.gtab, h.ltab, h.inFile, h.top⟩
+  ⟨h.inv, h.gt, h.lt, h.gtab, h.ltab, h.inFile, h.top⟩
 
 theorem good_push {b : Bool} {st : St} (h : Good b st) (env : Env) (l c : Nat) (k : Kind) : Good b (st.push env l c k) :=
   good_pushIn h _ _ _ _
